@@ -57,11 +57,14 @@ prop(
     "C01",
     contract_modules=["contracts.c01"],
     bcc="c01",
-    level="other",
-    claimed=False,
+    level='other',
+    claimed=True,
     trusted=["numpy.array-model", "mdtraj.utils.in_units_of"],
-    assumptions=[],
-    explanation="",
+    assumptions=['codecs (PyTables, netCDF4, xdrfile, dcdplugin, printf-style text formatting) store what they are given', 'unit factors 10 / 0.1 between nm and angstrom'],
+    explanation='Writer call-site obligations for all 13 savers x {1,3} frames x {cell, no cell}; codecs bounded.',
+    technique='contract-based deductive verification: symbolic execution of the real Python source against sidecar contracts, VCs to z3/cvc5 (writer call-site plumbing); bounded save/load round trip with an independent byte-level decoder as labelled stand-in for the codecs',
+    level_text="Deductive core: every save_* feeds its writer the trajectory's fields converted to the format's native unit (unit table from the format specifications), frame i with frame i, input unmodified, and the extension table dispatches correctly (all paths, symbolic force_overwrite and cell conditions). The codecs themselves (text layouts, XDR/DCD/NetCDF/HDF5 encoders) and the readers are covered by the bounded round-trip check only, which reads the bytes with an independent decoder: level 'other' because an mdtraj part of the critical path is bounded-only.",
+    level_note='Trusted: VC generator, traced-array numpy model, in_units_of factor table, third-party codecs. Reader-side plumbing (read_as_traj) is bounded-only for now.',
 )
 
 prop(
@@ -69,10 +72,13 @@ prop(
     contract_modules=["contracts.c03"],
     bcc="c03",
     level="proof",
-    claimed=False,
+    claimed=True,
     trusted=["numpy.array-model"],
-    assumptions=[],
-    explanation="",
+    assumptions=['numpy view/copy semantics as in numpy.array-model', 'aliasing through *other* views of the same buffer is not tracked by the term model (bounded check covers np.shares_memory)'],
+    explanation='inv_traj preservation + functional postconditions + aliasing clauses.',
+    technique='contract-based deductive verification: symbolic execution of the real Python source against sidecar contracts, VCs to z3/cvc5 over a term algebra of traced arrays (value normal forms + buffer identities); bounded operation-sequence enumeration as labelled stand-in for what the array model abstracts',
+    level_text='Trajectory class invariant (per-frame fields indexed alike, RMSD-trace cache either empty or the traces of the current coordinates) is proved established by __init__ and preserved by slice (int/slice/array keys, copy both ways), join, stack, atom_slice (both inplace values), the xyz setter, center_coordinates, superpose and in-place re-imaging, for symbolic frame counts: all finite operation sequences by induction. Field values equal the same numpy indexing/concatenation; result coordinate buffers are never shared; copy=True/join/atom_slice(inplace=False) share no buffer.',
+    level_note='Trusted: numpy view/copy model (numpy.array-model), deepcopy gives a fresh object, C kernels mutate only the coordinate buffer they are handed. `analysis functions leave input bit-identical` is bounded-only.',
 )
 
 prop(
@@ -80,10 +86,13 @@ prop(
     contract_modules=["contracts.c17"],
     bcc="c17",
     level="proof",
-    claimed=False,
+    claimed=True,
     trusted=["libm.axioms", "numpy.elementwise"],
-    assumptions=[],
-    explanation="",
+    assumptions=['valid cell = lengths>0, angles in (0,180), positivity of the Gram determinant', 'floats are reals'],
+    explanation='NRA obligations on the real source of mdtraj/utils/unitcell.py.',
+    technique='contract-based deductive verification: symbolic execution of the real Python source against sidecar contracts, VCs to z3/cvc5 over symbolic reals (NRA with ground-instantiated libm axioms, helper lemmas proved separately, numeric falsification for undecided VCs); bounded float32 evaluation as labelled stand-in',
+    level_text="Both unit-cell conversions and the tilt factors are executed on one frame's symbolic reals: lengths, the three dot products with the documented angle naming, standard orientation and positive volume are proved for every valid cell; the inverse conversion returns norms and acos of normalised dots in the documented naming. The 1e-6 snapping is handled by proving the identities before snapping and bounding the snap. Cell presence through slice/join/stack/atom_slice is covered by the C03 contracts (fields None together).",
+    level_note='Trusted: reals for floats, libm axioms, elementwise numpy model. Rotation invariance of the setter and float32 behaviour are bounded-only.',
 )
 
 prop(
@@ -91,10 +100,13 @@ prop(
     contract_modules=["contracts.c19"],
     bcc="c19",
     level="proof",
-    claimed=False,
+    claimed=True,
     trusted=["numpy.array-model"],
-    assumptions=[],
-    explanation="",
+    assumptions=['after handle.flush()/sync() the bytes are in the OS page cache, which survives process death', 'PyTables EArray.append and netCDF slice assignment extend along axis 0 and reject shape mismatches before changing anything'],
+    explanation='Rep(W) preservation and exceptional postconditions.',
+    technique='contract-based deductive verification: symbolic execution of the real Python source against sidecar contracts, VCs to z3/cvc5; bounded partition/refusal/crash enumeration on real files as labelled stand-in for the Cython and text writers',
+    level_text='Writer representation invariant for HDF5TrajectoryFile and NetCDFTrajectoryFile proved for one write() on an arbitrary state (symbolic frames-so-far n0, batch length n, atom counts, every schema combination): accepted batches extend every stored field by exactly the batch (=> any partition equals one call, by induction), ragged batches raise ValueError with every stored field and the position unchanged, HDF5 write ends with flush, flush() calls the library flush. Text and Cython writers, and durability after flush (crash points), are bounded-only.',
+    level_note='Trusted: PyTables append / netCDF unlimited-dimension assignment models; third-party durability of flush/sync is assumed and exercised by the bounded crash check.',
 )
 
 # ---- stubs (filled in as the contracts are written) -------------------------------------------
